@@ -62,6 +62,24 @@
 _failed: Failed
 //@ fn PubPoint::process_collected
 //@ closureopaque 1 opaque_objects_closure()
+//@ fn CaCert::cert
+//@ spec
+    ensures res == &self.cert,
+//@ fn CaCert::uri
+//@ spec
+    ensures res == &self.uri,
+//@ fn CaCert::rpki_notify
+//@ spec
+    ensures res == self.cert.rpki_notify_spec(),
+//@ fn RunFailed::retry
+//@ spec
+    ensures res == (RunFailed { fatal: false }),
+//@ fn RunFailed::is_fatal
+//@ spec
+    ensures res == self.fatal,
+//@ fn RunFailed::should_retry
+//@ spec
+    ensures res == !self.fatal,
 //@ global
 // Written from the property statement: manifest number strictly greater AND thisUpdate strictly later.
 spec fn strictly_newer(c: &ValidPointManifest, s: StoredManifest) -> bool {
